@@ -221,7 +221,14 @@ class Run:
                  "ProcessIsInitializedOrCrashedDuringInitialization": "Starting"}.get(o["v"], o["v"])
             if v not in ("Ok", "StillAlive", "OwnedByAnother", "BeingCleanedUp", "Starting", "DoesNotExist"):
                 v = "Err"
-            self.ev(p, "cresult", v=v, left=self.files_left())
+            lockop = "-"
+            for rec in reversed(shimctl.read_syslog(self.log)):
+                if rec["k"] == "sys" and rec["p"] == p and rec["call"] == "fcntl" and rec["cmd"] in ("F_SETLK", "F_SETLKW"):
+                    lockop = "lock" if rec["cmd"] == "F_SETLK" else "lockw"
+                    break
+                if rec["k"] == "ev" and rec["p"] == p and rec["ev"] == "cstart":
+                    break
+            self.ev(p, "cresult", v=v, left=self.files_left(), lv=lockop)
             self.state[p] = "owner" if v == "Ok" else "cfailed"
         elif e == "cleaner_dropped":
             self.ev(p, "cdropped"); self.state[p] = "cdone"
